@@ -18,22 +18,31 @@ What is proved (every lattice size, every syndrome, every solver answer unless s
   never fails;
 * the look-up that raises: the loop scatter asks `qubit_index` for `tuple_insert(cell, proj_axis,
   plane)` with `cell` from the `(Lx, Ly)` grid of `decode_plane`; all those keys exist iff
-  `Lx ≤ Ly ≤ Lz`; on such lattices the scatter never raises, on the others it raises `KeyError`
-  as soon as `decode_plane` returns an offending cell — kernel-checked witness
-  `XCubeCode(3,2,2)`, X on qubit 0, `KeyError (1, 4, 0)` (known finding D16).
+  `Lx ≤ Ly ≤ Lz`; on the other lattices it raises `KeyError` as soon as `decode_plane` returns an
+  offending cell — kernel-checked witness `XCubeCode(3,2,2)`, X on qubit 0, `KeyError (1, 4, 0)`
+  (known finding D16);
+* **no `KeyError` at all on lattices with `2 ≤ Lx ≤ Ly ≤ Lz`** (`xcube_no_keyerror_of_ascending`):
+  every dict look-up of `decode` (toric `stabilizer_index`, `plane_syndrome`, `connected_planes`,
+  `neighbors` in `find_connected_components`, `qubit_index` in the projection, `state` in
+  `decode_plane`, `qubit_index` in the loop scatter) finds its key, for every syndrome vector, every
+  PyMatching / ldpc answer, every `list(set)` order.
 
 What is NOT true and therefore not claimed: the Z-row (cube) syndrome is not reproduced in general
 — `xcube_cube_syndrome_not_reproduced_223` is a kernel-checked counterexample on the ascending
 lattice 2×2×3 (X on qubit 2, PyMatching answers that satisfy its contract, result: the zero
 vector).  `XCubeMatchingDecoder` is not a complete decoder in the sense of C05.
 
-Not proved (stated as `…_partial`): absence of `KeyError` from the *other* dict look-ups of
-`decode` (toric `stabilizer_index`, `plane_syndrome`, `connected_planes`, `qubit_index` in the
-projection, `state` in `decode_plane`) for all sizes; these are exercised by the correspondence.
+Not proved: termination of the `while` walk of `get_matched_pairs` (it follows the PyMatching
+answer; a cycle in the answer would make it run forever — the model reports that as `XErr.hang`,
+the harness has a watchdog); that the other exceptions (`IndexError` on a syndrome of the wrong
+length, numpy shape errors when a solver answer has the wrong length) are the only ones left is
+read off the model, not stated as a theorem.
 -/
 import PanqecVerif.Proofs.XCubeDecValid
 import PanqecVerif.Proofs.XCubeDecKeys
 import PanqecVerif.Proofs.XCubeDecCss
+import PanqecVerif.Proofs.XCubeDecNoKeyError
+import PanqecVerif.Proofs.XCubeDecWitness
 import PanqecVerif.Properties.C05
 
 namespace Panqec.C05XCube
@@ -133,59 +142,45 @@ theorem xcube_loop_scatter_raises (d : XCubeDec W) (proj : Axis) (pp : Int) (c :
     (loopScatter d proj pp (c :: rest) pc).val = .error (.keyError (tupleInsert c proj.toNat pp)) :=
   loopScatter_raises d proj pp c rest pc h
 
-/-- PyMatching's answers in the two kernel-checked witnesses below (each is a solution of the
-    sliced syndrome it was asked for, which the witnesses check) -/
-def witnessSolve : WSolver Unit := fun M _ sy =>
-  if sy == [1, 1, 1, 1] then [0, 0, 0, 0, 1, 1, 0, 0]
-  else if sy == [1, 1, 0, 0, 0, 0] then [1, 0, 0, 0, 0, 0, 0, 0, 0, 0, 0, 0]
-  else if sy == [0, 1, 1, 0, 1, 1] then [0, 0, 0, 0, 0, 0, 0, 1, 1, 0, 0, 0]
-  else if sy == [0, 1, 1, 0, 0, 0] then [0, 0, 1, 0, 0, 0, 0, 0, 0, 0, 0, 0]
-  else if sy == [1, 1, 0, 0] then [1, 0, 0, 0, 0, 0, 0, 0]
-  else List.replicate (M.headD []).length 0
+/-- **No `KeyError` on ascending lattices.**  For the decoder `__init__` builds on an undeformed
+    `XCubeCode(Lx, Ly, Lz)` with `2 ≤ Lx ≤ Ly ≤ Lz`: for every state of its BP-OSD decoder, every
+    syndrome vector (any length, any entries), every answer of PyMatching and ldpc and every
+    `list(set)` order that keeps the elements, `decode` does not raise `KeyError` — together with
+    `xcube_loop_keys_exist_iff_ascending` and the witness below this is the characterisation of
+    known finding D16. -/
+theorem xcube_no_keyerror_of_ascending (logOdds : Rat → W) (Lx Ly Lz : Nat) (px py pz : List Rat)
+    (cfg : BpCfg) (d : XCubeDec W) (hnew : XCubeDec.new logOdds Lx Ly Lz none px py pz cfg = .ok d)
+    (hx : 2 ≤ Lx) (hxy : Lx ≤ Ly) (hyz : Ly ≤ Lz)
+    (solve : WSolver W) (S : BpSolver) (castEv : Event Rat → Event W) (order : List Int → List Int)
+    (horder : ∀ l x, x ∈ order l ↔ x ∈ l) (st : BpSt) (s : Vec) (k : Coord) :
+    (d.decode solve S castEv order st s).2.val ≠ .error (.keyError k) := by
+  obtain ⟨h1, h2, h3, _⟩ := new_ok_fields logOdds Lx Ly Lz none px py pz cfg d hnew
+  have b := built_of_new logOdds Lx Ly Lz px py pz cfg (by omega) (by omega) (by omega) d hnew
+  have hm := errs_matchingPart solve order horder d b (h1 ▸ hx) (h1 ▸ h2 ▸ hxy) (h2 ▸ h3 ▸ hyz) s
+  intro hk
+  cases hmv : (matchingPart solve order d s).val with
+  | error e =>
+    rw [(decode_matching_error solve S castEv order d st s e hmv).1] at hk
+    cases hk
+    exact hm _ hmv k rfl
+  | ok pc =>
+    unfold XCubeDec.decode at hk
+    simp only [hmv] at hk
+    rw [Out.bind_val_ok hmv] at hk
+    unfold liftBp at hk
+    simp only at hk
+    cases hz : (d.zdec.decode S st (restoreX d.H s)).2.2 with
+    | error e =>
+      rw [Out.bind_val_error (e := .dec e) (by simp [hz])] at hk
+      cases hk
+    | ok zc =>
+      rw [Out.bind_val_ok (a := zc) (by simp [hz])] at hk
+      split at hk <;> simp at hk
 
-/-- ldpc on a zero syndrome: the zero vector -/
-def witnessBp : BpSolver :=
-  { decode := fun M _ _ _ => List.replicate (M.headD []).length 0, converged := fun _ _ _ _ => true }
-
-def witnessCfg : BpCfg := ⟨1/8, 1000, 10, "minimum_sum", false⟩
-
-/-- the decoder for `XCubeCode(Lx, Ly, Lz)` with uniform priors -/
-def witnessDec (Lx Ly Lz : Nat) : Except XErr (XCubeDec Unit) :=
-  let p := List.replicate (3 * Lx * Ly * Lz) (1/16 : Rat)
-  XCubeDec.new (fun _ => ()) Lx Ly Lz none p p p witnessCfg
-
-/-- the BP-OSD decoder's events without their priors -/
-def dropPriors : Event Rat → Event Unit
-  | .ctor m s er mi oo bm => .ctor m s er mi oo bm
-  | .update m p => .update m p
-  | .decode m w s a => .decode m (w.map fun _ => ()) s a
-  | .sub s a => .sub s a
-
-/-- X error on qubit `q` of `n` qubits -/
-def xError (n q : Nat) : Vec := (List.replicate (2 * n) 0).set q 1
-
-/-- every recorded PyMatching answer solves the sliced syndrome it was asked for -/
-def answersSolve (ev : List (Event Unit)) : Bool :=
-  ev.all fun e => match e with
-    | .decode M _ sy a => sectorSyndrome M a == sy
-    | _ => true
-
-/-- one call on a fresh decoder object -/
-def witnessCall (d : XCubeDec Unit) (s : Vec) : Out Unit Vec :=
-  (d.decode witnessSolve witnessBp dropPriors ascending BpSt.init s).2
-
-/-- executable form of `xcube_keyerror_witness_322` -/
-def keyErrorCheck322 : Bool :=
-  match witnessDec 3 2 2 with
-  | .error _ => false
-  | .ok d =>
-    let r := witnessCall d (measureSyndrome d.H (xError 36 0))
-    (match r.val with
-      | .error (.keyError k) => k == [1, 4, 0]
-      | _ => false) && answersSolve r.events
-
-set_option maxRecDepth 100000 in
-theorem keyErrorCheck322_true : keyErrorCheck322 = true := by decide +kernel
+/-- the `list(set)` order used by the model driver (ascending) keeps the elements, so the theorem
+    above applies to it -/
+theorem ascending_keeps_elements (l : List Int) (x : Int) : x ∈ ascending l ↔ x ∈ l :=
+  mem_ascending l x
 
 /-- **Witness of the finding (kernel-checked).**  `XCubeCode(3, 2, 2)`, X error on qubit 0,
     PyMatching answers that solve their sliced syndromes: `decode` raises `KeyError (1, 4, 0)`. -/
@@ -208,20 +203,6 @@ theorem xcube_keyerror_witness_322 :
       simp only [beq_iff_eq] at h1
       rw [h1]
     · cases h1
-
-/-- executable form of `xcube_cube_syndrome_not_reproduced_223` -/
-def cubeSyndromeCheck223 : Bool :=
-  match witnessDec 2 2 3 with
-  | .error _ => false
-  | .ok d =>
-    let s := measureSyndrome d.H (xError 36 2)
-    let r := witnessCall d s
-    (match r.val with
-      | .ok c => c == List.replicate 72 0
-      | _ => false) && answersSolve r.events && (measureSyndrome d.H (List.replicate 72 0) != s)
-
-set_option maxRecDepth 100000 in
-theorem cubeSyndromeCheck223_true : cubeSyndromeCheck223 = true := by decide +kernel
 
 /-- **The cube (Z-row) syndrome is not reproduced in general (kernel-checked counterexample).**
     `XCubeCode(2, 2, 3)` — an ascending lattice, no exception — X error on qubit 2, PyMatching
@@ -250,18 +231,17 @@ theorem xcube_cube_syndrome_not_reproduced_223 :
 
 /-! ### non-vacuity -/
 
-/-- on the cubic lattice 2×2×2 the same kind of X error is decoded to itself (an `.ok` call, to
-    which the theorems above apply) -/
-def okCheck222 : Bool :=
-  match witnessDec 2 2 2 with
-  | .error _ => false
-  | .ok d =>
-    match (witnessCall d (measureSyndrome d.H (xError 24 0))).val with
-    | .ok c => c == xError 24 0
-    | _ => false
+/-- on the cubic lattice 2×2×2 an X error on qubit 0 is decoded to itself (an `.ok` call, to which
+    the theorems above apply) -/
+example : okCheck222 = true := okCheck222_true
 
-set_option maxRecDepth 100000 in
-example : okCheck222 = true := by decide +kernel
+/-- the no-`KeyError` theorem applies to the decoder of the 2×2×3 witness above (an object that
+    exists, an ascending lattice, the driver's order) -/
+example (d : XCubeDec Unit) (h : witnessDec 2 2 3 = .ok d) (s : Vec) (k : Coord) :
+    (witnessCall d s).val ≠ .error (.keyError k) :=
+  xcube_no_keyerror_of_ascending (fun _ => ()) 2 2 3 _ _ _ witnessCfg d (by unfold witnessDec at h; exact h)
+    (by decide) (by decide) (by decide)
+    witnessSolve witnessBp dropPriors ascending ascending_keeps_elements BpSt.init s k
 
 example : LoopKeysOk 2 2 3 := (xcube_loop_keys_exist_iff_ascending 2 2 3 (by decide) (by decide) (by decide)).mpr (by decide)
 example : ¬ LoopKeysOk 3 2 2 := fun h =>
